@@ -93,10 +93,12 @@ func (cp *CollectingProcess) startUDPServer() {
 			klog.Error(err)
 			return
 		}
+		// Register the server goroutine before the address is published: an application
+		// which waits for GetAddress() may call Stop() right away.
+		cp.wg.Add(1)
 		cp.updateAddress(conn.LocalAddr())
 		klog.Infof("Start UDP collecting process on %s", cp.netAddress)
 		defer conn.Close()
-		cp.wg.Add(1)
 		go func() {
 			defer cp.wg.Done()
 			for {
